@@ -10,6 +10,7 @@
   handed to the token" are properties of that log.
 -/
 import Kskm.Signature
+import KskmGen.Tables
 namespace Kskm
 
 /-! ### PKCS#11 constants used by /repo (pinned against the regenerated table in the proofs) -/
@@ -203,6 +204,22 @@ def attrBytes (a : AttrAns) : TokM Bytes :=
   | .none => TokM.err .type
   | _ => TokM.fail .unsupported
 
+/-- The unwrap rule of `_p11_object_to_public_key` on the octets of CKA_EC_POINT (SoftHSM2 wraps the point
+    in a DER OCTET STRING `04 <len> 04 …`), for both behaviours of the code:
+    * `checksLength = false` (pinned tree, finding F24): `if ec_point.startswith(bytes([4, len(ec_point) - 2, 4]))`
+      — a BARE 65- / 97-octet point whose X starts `3f 04` / `5f 04` loses two octets;
+    * `checksLength = true` (repaired): `… and len(ec_point) - 2 in (65, 97)` — only a string whose remainder
+      has the length of an uncompressed P-256 / P-384 point is unwrapped.
+    (Called with `2 ≤ point.length < 258` only: `bytes([4, len - 2, 4])` raises ValueError outside.) -/
+def ecUnwrapWith (checksLength : Bool) (point : Bytes) : Bytes :=
+  if point.take 3 = [4, UInt8.ofNat (point.length - 2), 4] ∧
+      (checksLength = false ∨ point.length - 2 = 65 ∨ point.length - 2 = 97) then point.drop 2
+  else point
+
+/-- the unwrap rule of the tree in /repo now: the switch is tabulated from the code by execution on every run
+    (`KskmGen.ecUnwrapChecksLength`, harness/extract_tables.py `hsm_tables`) -/
+def ecUnwrap (point : Bytes) : Bytes := ecUnwrapWith KskmGen.ecUnwrapChecksLength point
+
 /-- `_p11_object_to_public_key(session, handle)`: the derived public key text, `none` when an EC
     object has no readable point. -/
 def p11ObjectToPublicKey (path : String) (slot handle : Nat) : TokM (Option String) := do
@@ -224,8 +241,8 @@ def p11ObjectToPublicKey (path : String) (slot handle : Nat) : TokM (Option Stri
       | .bytes point =>
         -- `bytes([4, len(ec_point) - 2, 4])` raises ValueError outside 0..255
         if point.length < 2 ∨ 258 ≤ point.length then TokM.err .value else
-        -- SoftHSM2 wraps the point in a DER OCTET STRING: 0x04 <len> 0x04 …
-        let point := if point.take 3 = [4, UInt8.ofNat (point.length - 2), 4] then point.drop 2 else point
+        -- SoftHSM2 wraps the point in a DER OCTET STRING: 0x04 <len> 0x04 … (`ecUnwrap`: the tree's rule)
+        let point := ecUnwrap point
         let params ← attrBytes (← attr1 (← askOk (.getAttr path slot handle ["EC_PARAMS"])))
         let want ← if params = ecOidP256 then pure 256 else if params = ecOidP384 then pure 384
                    else TokM.err .runtime
